@@ -199,6 +199,28 @@ def r1b_retry_callbacks_cannot_fail(ctx):
                                 if ast.dump(e0) == ast.dump(base) or ast.dump(e0d) == ast.dump(bd):
                                     guarded = True
                     cur = par
+                # guard clause: `if not isinstance(exc, StatusError): return` before the read (decided on the CFG)
+                if not guarded:
+                    fcfg = cfg_of(f.node)
+                    safe = []
+                    for i_ in walk_local(f.node):
+                        if isinstance(i_, ast.If):
+                            t_, neg_ = i_.test, False
+                            while isinstance(t_, ast.UnaryOp) and isinstance(t_.op, ast.Not):
+                                t_, neg_ = t_.operand, not neg_
+                            conj = t_.values if isinstance(t_, ast.BoolOp) and isinstance(t_.op, ast.And) else [t_]
+                            for ic in conj:
+                                if isinstance(ic, ast.Call) and dotted(ic.func) == 'isinstance' and ic.args:
+                                    e0 = ic.args[0]
+                                    e0d = deref(f.node, e0) if isinstance(e0, ast.Name) else e0
+                                    if ast.dump(e0) == ast.dump(base) or ast.dump(e0d) == ast.dump(bd):
+                                        if not neg_:
+                                            safe += fcfg.nodes_of(i_, 'true')
+                                        elif len(conj) == 1:
+                                            safe += fcfg.nodes_of(i_, 'false')
+                    st_nodes = fcfg.nodes_of(enclosing_stmt(a), ('stmt', 'test'))
+                    if safe and st_nodes and all(fcfg.set_dominates(safe, x) for x in st_nodes):
+                        guarded = True
                 # try/except AttributeError around it also makes it harmless
                 if any(isinstance(t_, ast.Try) and any(any(x in ('AttributeError', 'Exception') for x in handler_catches(h)) or not handler_catches(h) for h in t_.handlers) and any(a is y for st in t_.body for y in ast.walk(st)) for t_ in ast.walk(f.node)):
                     guarded = True
